@@ -590,6 +590,8 @@ def family(prop, t, sd):
         else:
             specs = gen.l_exhaustive(cont_only=True, level=1)[::2] + sum([gen.l_seeded(300 * sd + k, 10000, cont_only=True) for k in range(5)], []) + degenerate_family()
         specs = [s for s in specs if s['dir'] != 'solve']
+    if prop in ('C13', 'C05', 'C14'):
+        specs += compiled_continuous_models(t)
     lim = os.environ.get('VERIF_LIMIT')
     if lim:
         specs = specs[::max(1, len(specs) // int(lim))]
@@ -597,6 +599,32 @@ def family(prop, t, sd):
     import random
     random.Random(12345).shuffle(specs)
     return [{'idx': i, 'lm': s} for i, s in enumerate(specs)]
+
+
+def compiled_continuous_models(t):
+    """linear models the REAL linearizer produces from continuous source models (columns sorted by name,
+    domain in declaration order, auxiliary variables, big-M rows): the consumers must cope with what the
+    compiler actually emits, not only with hand-built models"""
+    D = gen.D
+    g = gen.RandGen(55)
+    srcs = []
+    n = 600 if t == 'quick' else 6000
+    while len(srcs) < n:
+        m = g.gen_model(maxd=2, maxk=3, maxr=2)
+        kinds = {v[1]['k'] for v in m['vars']}
+        if kinds <= {'Real', 'NNReal'}:
+            # declaration order deliberately not alphabetical
+            m['vars'] = list(reversed(m['vars']))
+            srcs.append(m)
+    outs = run_driver([{'cmd': 'compile', 'model': m, 'want': []} for m in srcs])
+    specs = []
+    for o in outs:
+        L = (o.get('lin') or {}).get('ok')
+        if not L or lin.nonfinite_entries(L) or not lin.lm_is_continuous(L) or len(L['vars']) > 6:
+            continue
+        specs.append({'vars': L['vars'], 'rows': [{'a': r['a'], 'c': r['c'], 'b': r['b']} for r in L['rows']], 'obj': L['obj'], 'dir': L['dir'], 'off': L['off'],
+                      'domain_order': L['domain_keys']})
+    return specs
 
 
 def degenerate_family():
